@@ -385,6 +385,9 @@ type Tracer struct {
 	Suicided []common.Address
 	SawSelfdestruct bool
 	SawCreate       bool
+	NSelfdestruct   int      // SELFDESTRUCT instructions executed (also in frames that revert later)
+	SelfBeneficiary bool     // some SELFDESTRUCT named the destructing contract itself as beneficiary (its balance is burnt)
+	BurnAtEnd       *big.Int // sum of the balances that accounts flagged suicided hold when the execution ends (deleted with them)
 }
 
 func (t *Tracer) CaptureStart(from common.Address, to common.Address, create bool, input []byte, gas uint64, value *big.Int) error {
@@ -396,6 +399,10 @@ func (t *Tracer) CaptureStart(from common.Address, to common.Address, create boo
 func (t *Tracer) CaptureState(env *vm.EVM, pc uint64, op vm.OpCode, gas, cost uint64, memory *vm.Memory, stack *vm.Stack, contract *vm.Contract, depth int, err error) error {
 	if op == vm.SELFDESTRUCT {
 		t.SawSelfdestruct = true
+		t.NSelfdestruct++
+		if d := stack.Data(); len(d) > 0 && common.BigToAddress(d[len(d)-1]) == contract.Address() {
+			t.SelfBeneficiary = true
+		}
 	}
 	if op == vm.CREATE {
 		t.SawCreate = true
@@ -412,9 +419,11 @@ func (t *Tracer) CaptureEnd(output []byte, gasUsed uint64, d time.Duration, err 
 	t.Refund = t.Sdb.GetRefund()
 	t.Logs = len(t.Sdb.GetLogs(t.TxHash))
 	t.End = SnapAll(t.Sdb, t.U)
+	t.BurnAtEnd = new(big.Int)
 	for _, a := range t.U {
 		if t.Sdb.HasSuicided(a) {
 			t.Suicided = append(t.Suicided, a)
+			t.BurnAtEnd.Add(t.BurnAtEnd, t.Sdb.GetBalance(a))
 		}
 	}
 	return nil
